@@ -2,9 +2,16 @@
 
 package calendar
 
+import "sync"
+
 // VerifResetYearCache empties the one-slot year cache (fresh-process state).
+// If the mutex was leaked by an earlier call (a defect the harness has already reported) it is
+// replaced, so that the search can continue behind the finding instead of wedging the process.
 func VerifResetYearCache() {
-	lock.Lock()
+	if !lock.TryLock() {
+		lock = sync.Mutex{}
+		lock.Lock()
+	}
 	CACHE_YEAR = nil
 	lock.Unlock()
 }
